@@ -73,7 +73,11 @@ var opCats = [][]string{
 }
 
 var goVersions = []string{"", "1.21", "1.22", "1.20", "1.23"}
-var checkSets = []string{"", "all", "inherit,-SA4018", "SA*,U1000", "all,-U1000"}
+
+// the first two are wide; the rest disable or single out checks that the
+// generated packages have directives for (the list of checks is applied
+// after the cache, so nothing cached may depend on it)
+var checkSets = []string{"", "all", "inherit,-SA4018", "SA*,U1000", "all,-U1000", "SA4006", "inherit,-SA4000,-SA4018", "U1000,ST1016", "all,-SA1000,-SA4018,-U1000"}
 var clockJumps = []int64{1, 59 * 60, 61 * 60, 23 * 3600, 25 * 3600, 5 * 86400, 5*86400 + 61*60, 6 * 86400, 30 * 86400}
 
 type state struct {
@@ -251,7 +255,7 @@ func apply(st *state, step Step, history []state) int64 {
 			st.flags.GOOS = ""
 		}
 	case "patterns":
-		if st.flags.Patterns != nil && a%3 == 0 {
+		if st.flags.Patterns != nil && a%2 == 0 {
 			st.flags.Patterns = nil
 		} else {
 			k := 1 + a%n
@@ -510,8 +514,13 @@ func (engine) Generate(seed uint64, index int, tier string) json.RawMessage {
 	if r.P(200) {
 		c.Flags.Tags = "extra"
 	}
-	if r.P(250) {
+	if r.P(350) {
 		c.Flags.Patterns = []int{npkg - 1 - r.N((npkg+1)/2)}
+		if r.P(500) {
+			// any package, also one that others import: it is then analysed
+			// as a leaf of the run that populates the cache
+			c.Flags.Patterns = []int{r.N(npkg)}
+		}
 	}
 	// quick tier: many short histories (populate under one condition, run
 	// under another; most cache-key defects need one or two changes and the
@@ -554,6 +563,13 @@ func (engine) Generate(seed uint64, index int, tier string) json.RawMessage {
 	}
 	if tot == 0 {
 		w[0], tot = 1, 1
+	}
+	narrowFirst := r.P(250)
+	if narrowFirst {
+		// the cache is populated under a narrow list of checks and used under
+		// a wide one right away
+		c.Flags.Checks = checkSets[2+r.N(len(checkSets)-2)]
+		c.Steps = append(c.Steps, Step{Op: "flag_checks", Pkg: 0, Arg: r.N(2), Seed: r.Next(), Strategy: 1 + r.N(4), Procs: []int{1, 2, 4, 8}[r.N(4)]})
 	}
 	for i := 0; i < n; i++ {
 		x := r.N(tot)
